@@ -57,6 +57,9 @@ P = {
  'C07': dict(families=[('fuse', 300, 4000, 120)], aspects='RSDKA', profiles=['debug', 'release'],
              theorems=['C07_invariant_survives', 'C07_later_calls_behave_normally', 'C07_self_consistent', 'C07_insert_loses_nothing_else', 'C07_reserve_only_loses',
                        'C07_clone_source_untouched', 'C07_clone_from_interrupted', 'C07_entry_step_keeps_invariant']),
+ 'C15': dict(families=[('par', 150, 2000, 120), ('parset', 80, 1000, 120)], aspects='RSD', profiles=['debug', 'release'],
+             theorems=['C15_pieces_partition', 'C15_schedule_independent', 'C15_par_iter_each_once', 'C15_par_is_sequential_up_to_order', 'C15_par_extend_same_collection',
+                       'C15_extend_is_reference', 'C15_par_set_operations', 'C15_par_set_predicates']),
  'C05': dict(families=[('mixed', 120, 2000, 120), ('entry', 80, 1500, 120), ('iter', 80, 1500, 120)], aspects='RS', profiles=['debug', 'release'],
              theorems=['C05_no_fault', 'C05_cursor_agrees']),
 }
@@ -133,7 +136,7 @@ def build_tools(profiles):
     shutil.copyfile('/repo/Cargo.lock', os.path.join(ROOT, 'harness', 'Cargo.lock'))
     for p in profiles:
         flag = '--release' if p == 'release' else ''
-        code, out = sh(f'cd harness && timeout 1500 cargo build --offline {flag} 2>&1', timeout=1600)
+        code, out = sh(f'cd harness && timeout 1500 cargo build --offline --features par,ser {flag} 2>&1', timeout=1600)
         if code != 0:
             return False, f'harness build ({p}) against /repo failed:\n' + out[-1500:]
     return True, ''
